@@ -152,23 +152,48 @@ def engine_b(work_root, unit, mode='single', funcs=None, validate=True, extra_cl
         return out
 
 
+_obj_locks = {}
+_obj_locks_guard = threading.Lock()
+
+
+def _obj_lock(path):
+    with _obj_locks_guard:
+        return _obj_locks.setdefault(path, threading.Lock())
+
+
 def build_goto(work, spec, cover):
     """compile + link the harness; returns path of the goto binary"""
     objs = []
     tag = 'cov' if cover else 'main'
     inc = prepare_inc(work)
     hextra = ['-DVH_COVER=1'] if cover else []
-    # units (cached between main and cover builds)
+    # units: /repo units are compiled once per check run and shared between harnesses (objcache keyed by source+flags+removed bodies);
+    # they see only the build-wide defines (-DNDEBUG, pool on/off, MMD6_VERIF*), never the harness's own -D parameters
+    cache = os.path.join(os.path.dirname(work), 'objcache')
+    os.makedirs(cache, exist_ok=True)
     for u in spec.get('units', []):
         name, udefs, rm = u, [], []
         if isinstance(u, dict):
             name, udefs, rm = u['src'], u.get('cflags', []), u.get('remove', [])
         src = path_of(work, name)
-        o = os.path.join(work, re.sub(r'[^\w]', '_', name) + '.o')
-        if not os.path.exists(o):
-            must(run(['goto-cc', '-c', src, '-o', o] + cflags(work, spec, udefs), timeout=600), 'goto-cc ' + name)
-            for fn in rm:
-                must(run(['goto-instrument', '--remove-function-body', fn, o, o], timeout=300), 'remove body ' + fn)
+        if name.startswith('repo:'):
+            uspec = dict(pool_off=spec.get('pool_off'), defs={k: v for k, v in spec.get('defs', {}).items() if k.startswith('MMD6_VERIF')})
+            fl = cflags(work, uspec, udefs)
+            key = hashlib.md5(repr((name, [x for x in fl if not x.startswith(work)], rm)).encode()).hexdigest()[:12]
+            o = os.path.join(cache, re.sub(r'[^\w]', '_', name) + '_' + key + '.o')
+            with _obj_lock(o):
+                if not os.path.exists(o):
+                    tmp = o + '.tmp%d' % threading.get_ident()
+                    must(run(['goto-cc', '-c', src, '-o', tmp] + fl, timeout=600), 'goto-cc ' + name)
+                    for fn in rm:
+                        must(run(['goto-instrument', '--remove-function-body', fn, tmp, tmp], timeout=300), 'remove body ' + fn)
+                    os.rename(tmp, o)
+        else:
+            o = os.path.join(work, re.sub(r'[^\w]', '_', name) + '.o')
+            if not os.path.exists(o):
+                must(run(['goto-cc', '-c', src, '-o', o] + cflags(work, spec, udefs), timeout=600), 'goto-cc ' + name)
+                for fn in rm:
+                    must(run(['goto-instrument', '--remove-function-body', fn, o, o], timeout=300), 'remove body ' + fn)
         objs.append(o)
     h = path_of(work, spec['src'])
     ho = os.path.join(work, 'harness_%s.o' % tag)
